@@ -146,9 +146,16 @@ static std::string solve_and_judge(XLP x, const Classification& cl, const Cfg3& 
    spx.setIntParam(SoPlex::SCALER, cf.scaler);
    for(int k = 0; k < 13; ++k) spx.setBoolParam(OPTS[k].id, ((cf.mask >> k) & 1) != 0);
    bool ratrec = (cf.mask >> 4) & 1, ratfac = (cf.mask >> 3) & 1;
-   bool mustDecide = ratrec || ratfac;
-   // a refinement limit everywhere: more than 200 refinement rounds on a 2x2 / 3x2 LP is reported as 'undecided' instead of burning the watchdog
-   spx.setIntParam(SoPlex::REFLIMIT, mustDecide ? 200 : 50);
+   // the statement promises a verdict only for the default exact-solver options ("with the default options every LP is decided"); with other option vectors only a RETURNED
+   // OPTIMAL / INFEASIBLE / UNBOUNDED is judged, an undecided status is not a violation
+   bool mustDecide = cf.mask == g_defaultMask;
+   // non-default option vectors can make the refinement loop run very long or for ever on tiny LPs: bound it (refinement rounds and CPU time) so that such a solve ends undecided
+   // instead of occupying the watchdog; the default vector runs unbounded and a hang there is reported
+   if(!mustDecide)
+   {
+      spx.setIntParam(SoPlex::REFLIMIT, (ratrec || ratfac) ? 200 : 50);
+      spx.setRealParam(SoPlex::TIMELIMIT, 20.0);
+   }
    spx.setIntParam(SoPlex::ITERLIMIT, 20000);
    load_rational(spx, x);
    if(cf.syncmode == SoPlex::SYNCMODE_MANUAL) spx.syncLPReal();   // manual mode: the user carries the rational LP over to the real LP
@@ -295,7 +302,7 @@ static std::string judge_one(SoPlex& spx, const XLP& x, const Classification& cl
    else
    {
       if(c) c->count("undecided");
-      if(mustDecide) { why = "status " + std::to_string(st) + " although rational reconstruction or factorization is enabled; true class " + cl.name(); return "undecided:status" + std::to_string(st); }
+      if(mustDecide) { why = "status " + std::to_string(st) + " with the default exact-solver options; true class " + cl.name(); return "undecided:status" + std::to_string(st); }
    }
    return "";
 }
@@ -459,7 +466,7 @@ int main(int argc, char** argv)
    rep.rule = "case = (rational tiny LP with non-dyadic data or lifting-range data, exact-solver option vector): every stride-th symmetry-reduced LP of four product families x all vectors with <= 2 "
               "deviations among the 13 exact-solver booleans x simplifier on/off (+ scaler off, manual sync); a second phase calls optimize() two and three times on one object (<= 1 deviation) and judges every verdict, and the stored rational LP is compared with the entered LP after every solve; thorough adds the complete 2^13 product on a curated subset. Every returned vector and value is "
               "checked with zero tolerance; non-trivial = distinct LPs solved";
-   rep.assumptions = {"exact oracle: basis enumeration over GMP rationals for the true status and optimum", "option vectors with rational reconstruction AND rational factorization both off run under REFLIMIT=50 and only a returned verdict is judged"};
+   rep.assumptions = {"exact oracle: basis enumeration over GMP rationals for the true status and optimum", "non-default exact-solver option vectors run under REFLIMIT (200, or 50 with reconstruction and rational factorization both off) and TIMELIMIT 20 s, and only a returned verdict is judged (the statement promises a verdict for the default options only)"};
    rep.extra["option_vectors"] = std::to_string(cfgs.size());
    rep.finish(rep.all.counters["nontrivial"]);
    return 0;
